@@ -23,7 +23,7 @@ def unit_to_sop(u: bytes):
         return unit_to_sop(AFTER[t]) + "; SFail (std_error ParameterNotAllowed)"
     if t in INVALID:
         return f"SFail (std_error {INVALID[t]})"
-    m = re.fullmatch(rb"STAT(?:US)?:(OPER(?:ATION)?|QUES(?:TIONABLE)?)(?::(EVEN(?:T)?|COND(?:ITION)?|ENAB(?:LE)?|NTR(?:ANSITION)?|PTR(?:ANSITION)?))?(\?)?(?: (\d+))?", t)
+    m = re.fullmatch(rb"STAT(?:US)?:(OPER(?:ATION)?|QUES(?:TIONABLE)?)(?::(EVEN(?:T)?|COND(?:ITION)?|ENAB(?:LE)?|NTR(?:ANSITION)?|PTR(?:ANSITION)?))?(\?)?(?: (\d+|#H[0-9A-F]+|#Q[0-7]+|#B[01]+))?", t)
     if m:
         r = "Oper" if m.group(1).startswith(b"OPER") else "Ques"
         what = (m.group(2) or b"EVEN")[:3]
@@ -31,7 +31,7 @@ def unit_to_sop(u: bytes):
         if q and v is None:
             return f"SReg {r} " + {b"EVE": "RRdEvent", b"CON": "RRdCondition", b"ENA": "RRdEnable", b"NTR": "RRdNtr", b"PTR": "RRdPtr"}[what]
         if not q and v is not None and what in (b"ENA", b"NTR", b"PTR"):
-            n = int(v)
+            n = int(v) if v[:1] != b"#" else int(v[2:], {b"H": 16, b"Q": 8, b"B": 2}[v[1:2]])
             if n > 65535:
                 return "SFail (std_error DataOutOfRange)"
             return f"SReg {r} (" + {b"ENA": "RWrEnable", b"NTR": "RWrNtr", b"PTR": "RWrPtr"}[what] + f" {n})"
@@ -43,9 +43,10 @@ def unit_to_sop(u: bytes):
               b"SYST:ERR:ALL?": "SErrAll", b"SYSTEM:ERROR:ALL?": "SErrAll"}
     if t in simple:
         return simple[t]
-    m = re.fullmatch(rb"\*(ESE|SRE) (\d+)", t)
+    m = re.fullmatch(rb"\*(ESE|SRE) (\d+|#H[0-9A-F]+|#Q[0-7]+|#B[01]+)", t)
     if m:
-        n = int(m.group(2))
+        v = m.group(2)
+        n = int(v) if v[:1] != b"#" else int(v[2:], {b"H": 16, b"Q": 8, b"B": 2}[v[1:2]])
         if n > 255:
             return "SFail (std_error DataOutOfRange)"
         return ("SWrEse" if m.group(1) == b"ESE" else "SWrSre") + f" {n}"
@@ -167,13 +168,18 @@ def reg_unit(rng, which=None):
     if k < 0.35: return base + rng.choice([b":COND?", b":condition?"])
     if k < 0.45: return base + rng.choice([b":ENAB?", b":PTR?", b":NTR?", b":ptransition?", b":NTRansition?"])
     what = rng.choice([b":ENAB", b":PTR", b":NTR", b":enable", b":PTRANSITION", b":ntr"])
-    return base + what + b" %d" % rand_u16(rng)
+    v = rand_u16(rng)
+    if rng.random() < 0.25:       # non-decimal spellings, now and then beyond 16 bits
+        if rng.random() < 0.3: v = rng.choice([65536, 65537, 0x10000 + v, 0x1FFFF, 2 ** 32, 2 ** 32 + v])
+        return base + what + b" " + rng.choice([b"#H%X" % v, b"#Q%o" % v, b"#B" + bin(v)[2:].encode(), b"#h%x" % v])
+    return base + what + b" %d" % v
 
 
 def common_unit(rng, pool=None):
     if pool:
         return rng.choice(pool)
     k = rng.random()
+    if k < 0.02: return rng.choice([b"*ESE #H%X", b"*SRE #Q%o", b"*ESE #HFF%02X", b"*SRE #H1%02X"]) % rand_u8(rng)
     if k < 0.12: return b"*ESE %d" % rand_u8(rng)
     if k < 0.24: return b"*SRE %d" % rand_u8(rng)
     if k < 0.5: return rng.choice([b"*ESE?", b"*SRE?", b"*ESR?", b"*STB?", b"*STB?", b"*OPC?", b"*TST?"])
